@@ -1001,7 +1001,7 @@ func (indicPlan *indicShapePlan) finalReorderingSyllableIndic(plan *otShapePlan,
 				}
 			}
 
-			if start < base && info[base].complexAux > posBaseC {
+			if start < base && base < end && info[base].complexAux > posBaseC {
 				base--
 			}
 			break
